@@ -272,7 +272,7 @@ func ruleGSum(c *Ctx) {
 // canonTerm renders a term with the operands of commutative operators (+, *) sorted, so that
 // comparisons are insensitive to operand order. Call ordinals are removed.
 func canonTerm(t *T) string {
-	if t.K == "bin" && (t.Op == token.ADD || t.Op == token.MUL) {
+	if t.K == "bin" && (t.Op == token.ADD || t.Op == token.MUL || t.Op == token.AND || t.Op == token.OR || t.Op == token.XOR) {
 		a, b := canonTerm(t.Args[0]), canonTerm(t.Args[1])
 		if b < a {
 			a, b = b, a
